@@ -82,6 +82,33 @@ theorem midnight_inj (a b : Int) : midnight a = midnight b ↔ a = b := by
 theorem midnight_le_ts_iff (d ts : Int) : midnight d ≤ ts ↔ d ≤ Timestamp.date ts := by
   rw [Timestamp.date_eq]; unfold midnight Timestamp.new USECONDS_PER_DAY; omega
 
+theorem shiftHalfDay_midnight (d : Int) : Timestamp.shiftHalfDay (midnight d) = .ok d := by
+  unfold Timestamp.shiftHalfDay
+  rw [extract_midnight]
+  simp only []
+  have : ¬ Time.hour 0 ≥ 12 := by decide
+  simp only [this, ↓reduceIte]
+
+theorem date_new0 (d : Int) : Timestamp.date (Timestamp.new d 0) = d := date_midnight d
+theorem time_new0 (d : Int) : Timestamp.time (Timestamp.new d 0) = 0 := time_midnight d
+theorem shift_new0 (d : Int) : Timestamp.shiftHalfDay (Timestamp.new d 0) = .ok d := shiftHalfDay_midnight d
+
+/-- Rounding through `Timestamp` at a date's midnight = rounding through `Date`, at midnight: all twelve units,
+    errors included (this is agreement between the types; what the rounded value IS, is C11). -/
+theorem round_midnight (u : TUnit) (d : Int) :
+    Timestamp.round u (midnight d) = (Date.round u d).map midnight := by
+  cases u <;>
+    simp only [Timestamp.round, Date.round, midnight, date_new0, time_new0, Timestamp.hour, shift_new0,
+      bind, Except.bind, pure, Except.pure, Except.map, Date.roundWeek, Date.roundMonthStartWeek,
+      Date.year, Date.day]
+  all_goals first
+    | rfl
+    | (have h12 : ¬ Time.hour 0 ≥ 12 := by decide
+       simp only [h12, ↓reduceIte]; done)
+    | (have e : Time.extract 0 = (0, 0, 0, 0) := by decide
+       simp only [e]; rfl)
+
+
 example : midnight 0 = 0 ∧ midnight (-1) = -86400000000 ∧ Timestamp.trunc .hour (midnight 5) = .ok (midnight 5) := by decide
 
 end SqlDt.C17
